@@ -157,6 +157,25 @@ Proof.
   - destruct (is_comp s' n' x); [reflexivity|exact IH].
 Qed.
 
+Lemma find_upd_same s n c c' l :
+  List.find (is_comp s n) l = Some c -> is_comp s n c' = true ->
+  List.find (is_comp s n) (upd_comp s n c' l) = Some c'.
+Proof.
+  intros F Hc'. induction l as [|x r IH]; cbn in *; [discriminate|].
+  destruct (is_comp s n x) eqn:E; cbn.
+  - rewrite Hc'. reflexivity.
+  - rewrite E. exact (IH F).
+Qed.
+
+(* putting back the definition that is there changes nothing *)
+Lemma upd_comp_same s n c l : List.find (is_comp s n) l = Some c -> upd_comp s n c l = l.
+Proof.
+  induction l as [|x r IH]; cbn; [reflexivity|].
+  destruct (is_comp s n x) eqn:E.
+  - intros H. injection H as ->. reflexivity.
+  - intros H. rewrite (IH H). reflexivity.
+Qed.
+
 Lemma find_app_some {A} (f : A -> bool) l x y : List.find f l = Some y -> List.find f (l ++ [x])%list = Some y.
 Proof.
   induction l as [|a r IH]; cbn; [discriminate|]. destruct (f a); [trivial|exact IH].
@@ -261,6 +280,72 @@ Section Coherence.
       unfold find_comp in F. apply find_some in F. exact (He _ _ (proj2 F) Ec).
     - intros H. injection H as <- <- <-. reflexivity.
   Qed.
+
+  (* the same without reference to the cache action: the other components resolve as before *)
+  Lemma comp_op_other d s n e d' a ob p s' n' :
+    (forall c c', is_comp s n c = true -> e c = inl c' -> is_comp s n c' = true) ->
+    comp_op d s n e = (d', a, ob) -> (s', n') <> (s, n) ->
+    qresolve dflt d' p s' n' = qresolve dflt d p s' n'.
+  Proof.
+    intros He. unfold comp_op. destruct (find_comp d s n) as [c|] eqn:F.
+    - destruct (e c) as [c'|cls] eqn:Ec; intros H; injection H as <- <- <-; intros Hs; [|reflexivity].
+      apply qresolve_ext; try reflexivity. unfold find_comp. cbn.
+      apply find_upd_other; [|exact Hs].
+      unfold find_comp in F. apply find_some in F. exact (He _ _ (proj2 F) Ec).
+    - intros H. injection H as <- <- <-. reflexivity.
+  Qed.
+
+  Lemma comp_op_inval d s n e c : find_comp d s n = Some c -> snd (fst (comp_op d s n e)) = AInval s n.
+  Proof. unfold comp_op. intros ->. destruct (e c); reflexivity. Qed.
+
+  Lemma commits_inv s n o : commits s n o = true ->
+    op_ok o = true /\
+    (o = Invalidate s n \/ (exists var val, o = SetCompVar s n var val) \/ (exists var, o = DelCompVar s n var) \/
+     (exists r val, o = SetOption s n r val) \/ (exists r, o = DelOption s n r) \/
+     (exists new, o = ReplaceComp s n new) \/ o = DelComp s n).
+  Proof.
+    destruct o; cbn [commits]; try discriminate; intros H;
+      apply andb_true_iff in H as [H Hok]; apply andb_true_iff in H as [Hs Hn];
+      apply Z.eqb_eq in Hs; apply String.eqb_eq in Hn; subst; (split; [exact Hok|]).
+    - right; left; eauto.
+    - right; right; left; eauto.
+    - right; right; right; left; eauto.
+    - right; right; right; right; left; eauto.
+    - right; right; right; right; right; left; eauto.
+    - right; right; right; right; right; right; reflexivity.
+    - left; reflexivity.
+  Qed.
+
+  (* a call that commits (s, n): every other component resolves as before, and when (s, n) exists its labels go *)
+  Lemma commit_other d s n o d' a ob p s' n' :
+    commits s n o = true -> mutate d o = (d', a, ob) -> (s', n') <> (s, n) ->
+    qresolve dflt d' p s' n' = qresolve dflt d p s' n'.
+  Proof.
+    intros Hc Hm Hne. destruct (commits_inv _ _ _ Hc) as [Hok Hcase].
+    destruct Hcase as [->|[(var & val & ->)|[(var & ->)|[(r & val & ->)|[(r & ->)|[(new & ->)| ->]]]]]];
+      unfold mutate in Hm; cbn in Hok.
+    - injection Hm as <- <- <-. reflexivity.
+    - eapply comp_op_other; [|exact Hm|exact Hne]. intros c c' Hcc E; erewrite ed_setvar_id; eassumption.
+    - eapply comp_op_other; [|exact Hm|exact Hne]. intros c c' Hcc E; erewrite ed_delvar_id; eassumption.
+    - eapply comp_op_other; [|exact Hm|exact Hne]. intros c c' Hcc E; erewrite set_route_id; eassumption.
+    - eapply comp_op_other; [|exact Hm|exact Hne]. intros c c' Hcc E; erewrite del_route_id; eassumption.
+    - eapply comp_op_other; [|exact Hm|exact Hne]. intros c c' _ E. injection E as <-. exact Hok.
+    - destruct (find_comp d s n); injection Hm as <- <- <-; [|reflexivity].
+      apply qresolve_ext; try reflexivity. unfold find_comp. cbn. apply find_del_other. exact Hne.
+  Qed.
+
+  Lemma commit_inval d s n o c : commits s n o = true -> find_comp d s n = Some c ->
+    snd (fst (mutate d o)) = AInval s n.
+  Proof.
+    intros Hc F. destruct (commits_inv _ _ _ Hc) as [_ Hcase].
+    destruct Hcase as [->|[(var & val & ->)|[(var & ->)|[(r & val & ->)|[(r & ->)|[(new & ->)| ->]]]]]];
+      unfold mutate; try (apply comp_op_inval with (c := c); exact F).
+    - reflexivity.
+    - rewrite F. reflexivity.
+  Qed.
+
+  Lemma commits_not_query s n o : commits s n o = true -> forall p s' n', o <> Query p s' n'.
+  Proof. intros H p s' n' ->. discriminate. Qed.
 
   (* THE per-operation lemma: a configuration that resolved before the mutator and whose label survives the
      mutator's cache action resolves to the same value afterwards *)
@@ -469,18 +554,53 @@ Section Coherence.
     unfold comp_op. destruct (find_comp d s n); [destruct (e j)|]; intros H; injection H as <- <- <-; auto.
   Qed.
 
-  (* write through a live reference, then invalidate_cache_for_component: together they keep the cache coherent *)
-  Lemma live_pair_coherent st s n r x : route_ok r = true -> coherent st ->
-    coherent (fst (step mt dflt (fst (step mt dflt st (LiveWrite s n r x))) (Invalidate s n))).
+  (* write through a live reference, then a call that commits the component (invalidate_cache_for_component, or a
+     mutator of that component - e.g. update_component handed the edited live definition): together they keep the
+     cache coherent *)
+  Lemma live_commit_coherent st s n r x o2 : route_ok r = true -> commits s n o2 = true -> coherent st ->
+    coherent (fst (step mt dflt (fst (step mt dflt st (LiveWrite s n r x))) o2)).
   Proof.
-    intros Hr Hc. destruct st as [d c]. cbn.
-    destruct (comp_op d s n (set_route r x)) as [[d' a] ob] eqn:Hm. cbn.
+    intros Hr Hcm Hc. destruct (commits_inv _ _ _ Hcm) as [Hok2 _].
+    destruct st as [d c].
+    assert (Same : coherent (fst (step mt dflt {| s_doc := d; s_cache := c |} o2)))
+      by (apply step_coherent; assumption).
+    assert (L : step mt dflt {| s_doc := d; s_cache := c |} (LiveWrite s n r x)
+                = (let '(d', _, ob) := comp_op d s n (set_route r x) in ({| s_doc := d'; s_cache := c |}, ob))).
+    { cbn. destruct (comp_op d s n (set_route r x)) as [[d' a'] ob']. reflexivity. }
+    rewrite L. clear L. unfold comp_op.
+    destruct (find_comp d s n) as [c0|] eqn:F; [|exact Same].
+    destruct (set_route r x c0) as [c'|cls] eqn:Er; [|exact Same].
+    cbn [fst apply_action s_doc s_cache].
+    set (d1 := with_comps d (upd_comp s n c' (d_components d))).
+    assert (Hc' : is_comp s n c' = true).
+    { unfold find_comp in F. pose proof (find_some _ _ F) as [_ Hi]. erewrite set_route_id; eassumption. }
+    assert (F1 : find_comp d1 s n = Some c').
+    { unfold find_comp, d1. cbn. apply find_upd_same with (c := c0); assumption. }
+    rewrite (step_generic _ o2 (commits_not_query _ _ _ Hcm)). cbn [s_doc s_cache].
+    pose proof (commit_inval d1 s n o2 c' Hcm F1) as Ha.
+    destruct (mutate d1 o2) as [[d2 a2] ob2] eqn:Hm. cbn in Ha. subst a2. cbn [fst].
     intros kv Hin. cbn in Hin. apply filter_In in Hin as [Hin Hs].
     destruct (Hc kv Hin) as (p & s' & n' & Hk & Hp & Hq). cbn in Hq.
     exists p, s', n'. cbn. repeat split; try assumption.
-    rewrite <- Hq. eapply comp_op_keeps; [|exact Hm|].
-    - intros c0 c0' Hc0 E. erewrite set_route_id; eassumption.
-    - rewrite <- Hk. destruct (comp_op_action _ _ _ _ _ _ _ Hm) as [-> | ->]; [reflexivity|exact Hs].
+    assert (Hne : (s', n') <> (s, n)).
+    { apply survives_inval with (p := p). unfold survives. rewrite <- Hk. exact Hs. }
+    rewrite (commit_other _ _ _ _ _ _ _ p s' n' Hcm Hm Hne).
+    rewrite <- Hq. apply qresolve_ext; try reflexivity. unfold find_comp, d1. cbn.
+    apply find_upd_other; assumption.
+  Qed.
+
+  (* ARGUMENT IDENTITY (value semantics): update_component((s, n), X) where X is the live definition of (s, n) itself -
+     i.e. the value the description holds for (s, n) at the time of the call: the description stays as it is, the
+     labels of the component are dropped *)
+  Lemma hand_back st s n c : find_comp (s_doc st) s n = Some c ->
+    op_ok (ReplaceComp s n c) = true /\
+    step mt dflt st (ReplaceComp s n c)
+    = ({| s_doc := s_doc st; s_cache := apply_action mt (AInval s n) (s_cache st) |}, ODone).
+  Proof.
+    intros F. split.
+    - unfold find_comp in F. exact (proj2 (find_some _ _ F)).
+    - destruct st as [d cch]. cbn [step mutate s_doc s_cache] in *. unfold comp_op. rewrite F.
+      unfold find_comp in F. rewrite (upd_comp_same _ _ _ _ F). destruct d; reflexivity.
   Qed.
 
   Lemma ok_hist_cons o r : (forall s n rt x, o <> LiveWrite s n rt x) -> ok_hist (o :: r) = op_ok o && ok_hist r.
@@ -502,14 +622,11 @@ Section Coherence.
       destruct o; try (apply G; intros; discriminate).
       (* LiveWrite: the next operation is the invalidation *)
       destruct r as [|o2 r']; [discriminate|].
-      destruct o2; try discriminate.
       cbn [ok_hist] in Hok.
-      apply andb_true_iff in Hok as [Hok H4]. apply andb_true_iff in Hok as [Hok H3].
-      apply andb_true_iff in Hok as [H1 H2].
-      apply Z.eqb_eq in H2. apply String.eqb_eq in H3. subst s0 n0.
-      pose proof (live_pair_coherent st s n route x H1 Hc) as Hc1.
+      apply andb_true_iff in Hok as [Hok H4]. apply andb_true_iff in Hok as [H1 H2].
+      pose proof (live_commit_coherent st s n route x o2 H1 H2 Hc) as Hc1.
       cbn [run]. destruct (step mt dflt st (LiveWrite s n route x)) as [st1 ob1]. cbn [fst] in Hc1.
-      destruct (step mt dflt st1 (Invalidate s n)) as [st2 ob2]. cbn [fst] in Hc1.
+      destruct (step mt dflt st1 o2) as [st2 ob2]. cbn [fst] in Hc1.
       cbn in Hl. assert (Hl' : length r' <= k) by lia.
       pose proof (IH r' st2 Hl' H4 Hc1) as Hc2.
       destruct (run mt dflt st2 r') as [st3 obs]. exact Hc2.
